@@ -59,6 +59,8 @@ PROBES = {
         "pointer-moved",
         "stored-loaded-value",
         "mods-interpreted",
+        "index-form-load",
+        "result-registers-preassigned",
     ]
 }
 KNOWN_PREDICATES = {
@@ -88,6 +90,9 @@ def gen_case(r):
     en = r.choice([1, 1, 1, -1])
     prog = []
     nld = 0
+    # a program either is cut into composed pieces or may use index-form loads
+    # m[mem(p+off)] (p taken as an input of the map, i.e. before any pointer move)
+    style = r.choice(["cut", "index", "index"])
     for k in range(r.choice([1, 2, 3, 4, 5, 6, 7, 8, 10])):
         x = r.random()
         pi = r.randrange(np_)
@@ -100,7 +105,7 @@ def gen_case(r):
             elif y < 0.8 or nld == 0:
                 val = ["v", r.randrange(3)]
             else:
-                lds = [(j, ins) for j, ins in enumerate(prog) if ins[0] == "ld" and ins[3] >= sz]
+                lds = [(j, ins) for j, ins in enumerate(prog) if ins[0] in ("ld", "ldi") and ins[3] >= sz]
                 if lds:
                     j, _ = r.choice(lds)
                     val = ["o", j]
@@ -108,11 +113,11 @@ def gen_case(r):
                     val = ["v", r.randrange(3)]
             prog.append(["st", pi, off, sz, val])
         elif x < 0.88:
-            prog.append(["ld", pi, off, sz])
+            prog.append(["ldi" if (style == "index" and r.random() < 0.35) else "ld", pi, off, sz])
             nld += 1
         elif x < 0.95:
             prog.append(["mv", pi, r.choice([-4, -2, -1, 1, 2, 4])])
-        else:
+        elif style == "cut":
             prog.append(["cut"])
     # the reveal: chosen after the program, biased to the interesting cases
     kind = "disjoint" if noalias else weighted(r, [("equal", 3), ("overlap", 4), ("adjacent", 2), ("disjoint", 1.5), ("random", 2)])
@@ -138,6 +143,9 @@ def gen_case(r):
         "memtrace": memtrace,
         "endian": en,
         "prog": prog,
+        # the result registers of the loads exist in the map before the program starts
+        # (registers are reused in real code): no new register key is appended later
+        "preassign": r.random() < 0.5,
         "reveal": {"kind": kind, "pa": pa, "vv": [r.getrandbits(64) for _ in range(3)], "mem_seed": r.getrandbits(32)},
     }
 
@@ -196,8 +204,14 @@ def run_model(case):
     bo = "little" if en == 1 else "big"
     ba = bytearray(mem0_of(rv["mem_seed"]))
     pa = list(rv["pa"])
+    pa0 = list(pa)
     loads = {}
     for k, ins in enumerate(case["prog"]):
+        if ins[0] == "ldi":
+            _, pi, off, sz = ins
+            a = pa0[pi] + off - BASE
+            loads[k] = int.from_bytes(ba[a : a + sz // 8], bo)
+            continue
         if ins[0] == "st":
             _, pi, off, sz, val = ins
             if val[0] == "c":
@@ -235,9 +249,9 @@ def predicates(case):
             sts.append((a, sz, key))
             if case["endian"] == -1:
                 hit.add("T3")
-        elif ins[0] == "ld":
+        elif ins[0] in ("ld", "ldi"):
             _, pi, off, sz = ins
-            key = (pi, cum[pi] + off)
+            key = (pi, (cum[pi] if ins[0] == "ld" else 0) + off)
             last = None
             for (a2, s2, k2) in sts:
                 if k2 == key:
@@ -271,9 +285,11 @@ def scenario_probes(case, st):
             keys[key] = a
             if val[0] == "o":
                 st.hit("probe:stored-loaded-value")
-        elif ins[0] == "ld":
+        elif ins[0] in ("ld", "ldi"):
             _, pi, off, sz = ins
-            seen_ld.append((pa[pi] + off, sz, pi))
+            if ins[0] == "ldi":
+                st.hit("probe:index-form-load")
+            seen_ld.append(((pa[pi] if ins[0] == "ld" else rv["pa"][pi]) + off, sz, pi))
             if case["endian"] == -1 and sz < 32:
                 st.hit("probe:bigendian-subword-load")
         elif ins[0] == "mv":
@@ -342,7 +358,22 @@ def symbolic(case, composed, st):
     outs = []
     oregs = {}
     seen_keys = set()
+    if case.get("preassign"):
+        for k, ins in enumerate(case["prog"]):
+            if ins[0] in ("ld", "ldi"):
+                m[reg("o%d" % k, ins[3])] = cst(0, ins[3])
+        st.hit("probe:result-registers-preassigned")
     for k, ins in enumerate(case["prog"]):
+        if ins[0] == "ldi":
+            _, pi, off, sz = ins
+            r_ = reg("o%d" % k, sz)
+            oregs[k] = r_
+            outs.append((k, r_))
+            x = m[mem(P[pi] + off, sz, endian=en)]
+            if x._is_mem and x.mods:
+                st.hit("probe:read-carrying-mods")
+            m[r_] = x
+            continue
         if ins[0] == "st":
             _, pi, off, sz, val = ins
             if val[0] == "c":
@@ -512,7 +543,7 @@ def run(spec):
         d.event(case["prog"], case["reveal"], cfg_label(case), case["psize"], status, decided)
         wlog.event(d.digest())
         prs = set(i[1] for i in case["prog"] if i[0] in ("st",))
-        prl = set(i[1] for i in case["prog"] if i[0] in ("ld",))
+        prl = set(i[1] for i in case["prog"] if i[0] in ("ld", "ldi"))
         if status == "ok" and decided >= 1 and prs and prl and (len(prs | prl) >= 2):
             digests.append(d.digest())
             st.hit("cases-nontrivial")
